@@ -1327,7 +1327,10 @@ func main() {
 				mem += "  [" + strings.Join(fx.MemProgs[k], ", ") + "]"
 			}
 			mem += "]\n"
-			src := "-- generated by xlate from codec/checksum.go and codec/binary_codec.go; do not edit\nimport FinProto.LockProg\nimport FinProto.Alias\nnamespace FinProto.Gen\nopen FinProto.Reg\n\n" +
+			defs, extra := primDefs(*root)
+			mem += "\n/-- every primitive of codec/binary_codec.go, its whole body matched against the template of its kind (order = CodecProg.primNames)" +
+				"; other functions in the package: " + strings.Join(extra, ", ") + " -/\ndef prims : List FinProto.PrimDef := [\n  " + strings.Join(defs, ",\n  ") + "]\n"
+			src := "-- generated by xlate from codec/checksum.go and codec/binary_codec.go; do not edit\nimport FinProto.LockProg\nimport FinProto.Alias\nimport FinProto.CodecProg\nnamespace FinProto.Gen\nopen FinProto.Reg\n\n" +
 				"/-- the bodies of Registry / Get / Remove / Clear as lock programs -/\ndef lockProgs : Progs :=\n  { reg := " + prog("Registry") + ",\n    get := " + prog("Get") +
 				",\n    remove := " + prog("Remove") + ",\n    clear := " + prog("Clear") + " }\n" + mem + "\nend FinProto.Gen\n"
 			os.WriteFile(*outLock, []byte(src), 0o644)
